@@ -193,10 +193,20 @@ pub fn run(ctx: &Ctx) {
     ctx.run("model", ctx.n(12_000, 800_000), || vec(any::<u16>(), 20..500), |c| check_model(c, false));
     ctx.run("model-fail", ctx.n(4_000, 200_000), || vec(any::<u16>(), 20..400), |c| check_model(c, true));
     ctx.run("meta", ctx.n(4_000, 300_000), || vec(any::<u16>(), 20..400), check_meta);
+    // exec / call of procedures imported from generated libraries (modules with re-exports, local
+    // chains): every body adds its own constant to an accumulator, the total identifies what ran
+    ctx.run("imported-procedures", ctx.n(3_000, 150_000), || vec(any::<u16>(), 60..300), |c| {
+        let (src, nlibs) = crate::props::c11::check_accumulator(c, "C06")?;
+        Ok(crate::engine::Info { nontrivial: Some(crate::engine::fp_str(&src)), classes: vec![format!("imported-procedures:libs={nlibs}")], sample: Some(serde_json::json!({"src": src})), ..crate::engine::Info::default() })
+    });
 }
 
 pub fn replay(ctx: &Ctx, v: &serde_json::Value) {
     let c = &v["case"];
+    if c.get("libs").is_some() {
+        // imported-procedures sub-check: the case is a universe of libraries plus a program
+        return crate::props::c11::replay(ctx, v);
+    }
     let case = Case::from_json(&c["case"]);
     let sig = v["signature"].as_str().unwrap_or("");
     let out: Out = if c.get("expect").is_some() {
